@@ -619,6 +619,11 @@ APP_CURATED = [b"hello world", b"/a/b c/%41%2f%7E", b"%zz%4", b"%", b"%4", b"%41
 FLAG_KEYS = [0, 1, 2, 4, 8, 16, 32, 64, 128, 5, 6, 9, 10, 17, 18, 33, 34, 65, 66, 129, 130]
 
 
+def n_cases(ctx, quick):
+    """number of random cases of a stream: thorough = 8 x quick"""
+    return quick if ctx.quick else 8 * quick
+
+
 def rstr(rng, lo, hi, alpha=STR_ALPHA):
     return b"".join(rng.choice(alpha) for _ in range(rng.randint(lo, hi)))
 
@@ -635,13 +640,13 @@ def gen_app(ctx):
             s = b"".join(tup)
             for f in FLAG_KEYS:
                 lines.append("app %d %s -" % (f, hx(s)))
-    for _ in range(30000 if ctx.quick else 300000):
+    for _ in range(n_cases(ctx, 90000)):
         s = rstr(rng, 1, 14)
         look = rstr(rng, 0, 3) if rng.random() < 0.5 else b""
         f = rng.choice(FLAG_KEYS) if rng.random() < 0.8 else rng.randint(0, 255)
         lines.append("app %d %s %s" % (f, hx(s), hx(look)))
     # base64url stream: valid encodings (round trip), whitespace, padding, one damaged character
-    for _ in range(6000 if ctx.quick else 60000):
+    for _ in range(n_cases(ctx, 18000)):
         raw = bytes(rng.randint(0, 255) for _ in range(rng.randint(0, 12)))
         e = bytearray(base64.urlsafe_b64encode(raw).rstrip(b"="))
         k = rng.randint(0, 5)
@@ -656,7 +661,7 @@ def gen_app(ctx):
         f = F_DEC64 | rng.choice([0, 0, F_LOWER, F_UPPER])
         lines.append("app %d %s -" % (f, hx(bytes(e))))
         lines.append("app %d %s -" % (F_ENC64, hx(raw)))
-    for _ in range(3000 if ctx.quick else 30000):
+    for _ in range(n_cases(ctx, 9000)):
         s = rstr(rng, 0, 12, [b"%", b"%%", b"a", b"f", b"4", b"E", b"\xe4", b"/", b"g", b"$1", b"%1"])
         lines.append("nkey " + hx(s))
         lines.append("nval " + hx(s))
@@ -788,7 +793,7 @@ def gen_subst(ctx):
                     t = b"/p/" + sig + b"{" + ms + it + b"}?k=v"
                     cond = hx(HOSTS[0]) + "@0.15,0.3,4.11"
                     lines.append("subst %s %s@%s %s %s" % (hx(t), hx(subj), ovs[len(lines) % 2], cond, rand_url(rng, subj)))
-    for _ in range(25000 if ctx.quick else 250000):
+    for _ in range(n_cases(ctx, 75000)):
         subj = rand_subject(rng)
         t = rand_template(rng, rng.choice([b"/", b"", b"http://h/"]))
         if rng.random() < 0.3:
@@ -807,26 +812,48 @@ def gen_subst(ctx):
     return lines
 
 
-# regex subset shared by PCRE2 and Python's re
+# regex subset shared by PCRE2 and Python's re; each atom comes with strings it matches
 PATH_WORDS = [b"foo", b"bar", b"img", b"doc", b"api", b"v1", b"old", b"new", b"x", b"index"]
-RX_ATOMS = [rb"(.*)", rb"([^/?]+)", rb"([^?]*)", rb"(\d+)", rb"(\w+)", rb"(?:\?(.*))?", rb"([a-z]+)", rb"(.+?)",
-            rb"(foo|bar|x)", rb"(?:foo|bar)", rb".", rb"[^/]*", rb"(\.php|\.html)?", rb"((?:[^/]+/)*)", rb"()",
-            rb"(a)?(b)?"]
+RX_ATOMS = [(rb"(.*)", [b"", b"a/b", b"x.php?q=1", b"Foo%20Bar"]), (rb"([^/?]+)", [b"abc", b"A-b_c", b"\xc3\xa9"]),
+            (rb"([^?]*)", [b"", b"a/b/c", b"IMG"]), (rb"(\d+)", [b"7", b"123"]), (rb"(\w+)", [b"w_1", b"Abc"]),
+            (rb"(?:\?(.*))?", [b"", b"?a=1", b"?"]), (rb"([a-z]+)", [b"abc", b"z"]), (rb"(.+?)", [b"q", b"qq/r"]),
+            (rb"(foo|bar|x)", [b"foo", b"bar", b"x"]), (rb"(?:foo|bar)", [b"foo", b"bar"]), (rb".", [b"a", b"\xc3\xa9"]),
+            (rb"[^/]*", [b"", b"seg"]), (rb"(\.php|\.html)?", [b"", b".php", b".html"]),
+            (rb"((?:[^/]+/)*)", [b"", b"a/", b"a/b/"]), (rb"()", [b""]), (rb"(a)?(b)?", [b"", b"a", b"b", b"ab"])]
 
 
 def rand_pattern(rng):
-    parts = [b"^"] if rng.random() < 0.8 else []
+    """-> (regex, a string the regex matches)"""
+    parts, sample = ([b"^"], []) if rng.random() < 0.8 else ([], [rng.choice([b"", b"/pre"])])
     for _ in range(rng.randint(1, 3)):
         parts.append(b"/")
-        parts.append(rng.choice(PATH_WORDS) if rng.random() < 0.6 else rng.choice(RX_ATOMS))
+        sample.append(b"/")
+        if rng.random() < 0.6:
+            w = rng.choice(PATH_WORDS)
+            parts.append(w)
+            sample.append(w)
+        else:
+            a, ss = rng.choice(RX_ATOMS)
+            parts.append(a)
+            sample.append(rng.choice(ss))
     if rng.random() < 0.5:
-        parts.append(rng.choice(RX_ATOMS))
+        a, ss = rng.choice(RX_ATOMS)
+        parts.append(a)
+        sample.append(rng.choice(ss))
     if rng.random() < 0.6:
         parts.append(b"$")
-    return b"".join(parts)
+    elif rng.random() < 0.5:
+        sample.append(rng.choice([b"/more", b"?x=1", b"tail"]))
+    return b"".join(parts), b"".join(sample)
 
 
-def rand_target(rng):
+def rand_target(rng, rules=None):
+    if rules and rng.random() < 0.75:
+        smp = rng.choice(rules)[2]
+        if smp is not None:
+            if rng.random() < 0.15:          # near miss
+                smp = smp[:-1] if smp and rng.random() < 0.5 else smp + rng.choice([b"x", b"/", b"?"])
+            return smp if smp.startswith(b"/") else b"/" + smp
     segs = [rng.choice(PATH_WORDS + [b"123", b"a.php", b"Foo", b"b%20c", b"\xc3\xa9"]) for _ in range(rng.randint(1, 3))]
     t = b"/" + b"/".join(segs)
     if rng.random() < 0.2:
@@ -837,20 +864,17 @@ def rand_target(rng):
 
 
 def rand_rules(rng, nmax=5, once_prefix=b"/"):
+    """-> [(pattern, template, sample subject)]"""
     rules = []
     for _ in range(rng.randint(1, nmax)):
-        pat = rand_pattern(rng)
-        r = rng.random()
-        if r < 0.1:
-            tmpl = b""
-        else:
-            tmpl = rand_template(rng, once_prefix)
-        rules.append((pat, tmpl))
+        pat, smp = rand_pattern(rng)
+        tmpl = b"" if rng.random() < 0.1 else rand_template(rng, once_prefix)
+        rules.append((pat, tmpl, smp))
     return rules
 
 
 def rules_tok(rules):
-    return ";".join("%s:%s" % (hx(p), hx(t)) for p, t in rules) if rules else "."
+    return ";".join("%s:%s" % (hx(r[0]), hx(r[1])) for r in rules) if rules else "."
 
 
 def gen_proc(ctx):
@@ -864,15 +888,15 @@ def gen_proc(ctx):
             lines.append("proc %s %s %s@0.15,0.3 %s,%s,80,%s,%s ?" % (
                 rules_tok(rules), hx(s), hx(HOSTS[0]), hx(b"http"), hx(HOSTS[0]), hx(s),
                 "~" if q < 0 else hx(s[q + 1:])))
-    for _ in range(20000 if ctx.quick else 200000):
+    for _ in range(n_cases(ctx, 60000)):
         rules = rand_rules(rng)
-        s = rand_target(rng)
+        s = rand_target(rng, rules)
         if rng.random() < 0.03:
             s += rng.choice([b"\xff", b"\xc3", b"\xe9x"])      # invalid UTF-8: PCRE2 match error
         lines.append("proc %s %s %s %s ?" % (rules_tok(rules), hx(s), rand_cond(rng), rand_url(rng, s)))
-    for _ in range(4000 if ctx.quick else 40000):
+    for _ in range(n_cases(ctx, 12000)):
         rules = rand_rules(rng, 3, rng.choice([b"/", b"http://new.example/", b"${url.scheme}://${url.authority}/"]))
-        s = rand_target(rng)
+        s = rand_target(rng, rules)
         lines.append("redir %d %d %d %s %s %s ?" % (rng.choice([0, 0, 301, 302, 307, 99]), rng.randint(0, 1),
                                                     rng.randint(0, 1), rules_tok(rules), rand_cond(rng),
                                                     rand_url(rng, s)))
@@ -906,23 +930,25 @@ def gen_rw(ctx):
             for opts in (0, 8 | 16 | 1024):
                 lines.append("rw %d %s %s ~ %s %s 80 %d ?" % (ridx, rules_tok(rules), hx(t), hx(b"http"),
                                                               hx(b"Www.Example.com"), opts))
-    for _ in range(12000 if ctx.quick else 120000):
+    for _ in range(n_cases(ctx, 36000)):
         rules = []
         for _ in range(rng.randint(1, 4)):
             a, b = rng.choice(PATH_WORDS), rng.choice(PATH_WORDS)
             k = rng.random()
             if k < 0.5:
-                rules.append((b"^/" + a + rb"(/.*|\?.*)?$", b"/" + b + b"$1"))
+                rules.append((b"^/" + a + rb"(/.*|\?.*)?$", b"/" + b + b"$1", b"/" + a + rng.choice([b"", b"/t", b"?q=1"])))
             elif k < 0.7:
-                rules.append((rand_pattern(rng), rand_template(rng, b"/")))
+                pat, smp = rand_pattern(rng)
+                rules.append((pat, rand_template(rng, b"/"), smp))
             elif k < 0.8:
-                rules.append((b"^/" + a, b""))
+                rules.append((b"^/" + a, b"", b"/" + a + b"/z"))
             elif k < 0.9:
-                rules.append((b"^/" + a + b"/(.*)$", b"/" + b + b"/${tolower:noesc:1}${qsa}"))
+                rules.append((b"^/" + a + b"/(.*)$", b"/" + b + b"/${tolower:noesc:1}${qsa}", b"/" + a + b"/MiXed?Q=1"))
             else:
-                rules.append((b"^/" + a + b"(.*)$", rng.choice([b"x$1", b"/" + a + b"/y$1", b"/" + b + b"?u=${esc:1}"])))
+                rules.append((b"^/" + a + b"(.*)$", rng.choice([b"x$1", b"/" + a + b"/y$1", b"/" + b + b"?u=${esc:1}"]),
+                              b"/" + a + b"-1"))
         ridx = rng.randint(0, len(rules))
-        t = rand_target(rng)
+        t = rand_target(rng, rules)
         if rng.random() < 0.05:
             t += b"#frag"
         lines.append("rw %d %s %s %s %s %s %d %d ?" % (
@@ -939,7 +965,7 @@ URI_TAILS = [b"", b"x", b"/x", b"/../x", b"../x", b"./x", b".", b"..", b".x", b"
 
 def gen_alias(ctx):
     rng, lines = ctx.rng, []
-    for _ in range(30000 if ctx.quick else 300000):
+    for _ in range(n_cases(ctx, 90000)):
         keys = rng.sample(ALIAS_KEYS, rng.randint(1, 4))
         al = [(k, rng.choice(ALIAS_VALS)) for k in keys]
         basedir = rng.choice([b"/var/www", b"/var/www/", b"/", b"/srv/x/", b"/s"])
@@ -977,7 +1003,7 @@ EV_BAD = [b"%", b"%x", b"%{", b"%{x}", b"%{1", b"%{1.}", b"%{1.x}", b"%{1.2", b"
 
 def gen_vhost(ctx):
     rng, lines = ctx.rng, []
-    for _ in range(15000 if ctx.quick else 150000):
+    for _ in range(n_cases(ctx, 45000)):
         pat = b"/srv/" + b"".join(rng.choice(EV_PIECES) for _ in range(rng.randint(1, 6)))
         if rng.random() < 0.08:
             pos = rng.randint(0, len(pat))
@@ -987,7 +1013,7 @@ def gen_vhost(ctx):
     lines.append("evhost %s %s" % (hx(b"%1" * 63), hx(b"a.b")))
     lines.append("evhost %s %s" % (hx(b"%1" * 64), hx(b"a.b")))
     lines.append("evhost %s %s" % (hx(b"x%1" * 63 + b"tail"), hx(b"a.b")))
-    for _ in range(8000 if ctx.quick else 80000):
+    for _ in range(n_cases(ctx, 24000)):
         sroot = rng.choice([b"/srv/www/", b"/srv/www", b"/", b"/v/"])
         host = "~" if rng.random() < 0.15 else hx(rand_host(rng))
         droot = "~" if rng.random() < 0.3 else hx(rng.choice([b"/htdocs/", b"htdocs/", b"/", b"pages", b"/a/b/"]))
